@@ -1,11 +1,17 @@
 package main
 
-// Wallet-level runs: the same scan after every commit, driven through the
-// real wallet package (wallet.Create, Open, Unlock, NewAddress, imports,
-// passphrase changes, the watching-only conversion through InitAccounts) and
-// ending with a recorded transaction, after which output scripts are
-// expected in the clear (the property's "until a transaction is recorded").
-// No row shapes are compared here: these cases are decided by the oracle only.
+// Wallet-level runs: the same scan after every commit of EVERY namespace
+// (address manager and transaction store), driven through the real wallet
+// package (wallet.Create, Open, Unlock, NewAddress, imports, passphrase
+// changes, the watching-only conversion through InitAccounts, received
+// transactions through the notification handler, SendOutputs through the
+// create/sign/record/publish path, failed sends).  Until the first
+// transaction is recorded no sensitive item may be in the clear either;
+// afterwards output scripts and public keys are expected in the clear (the
+// property's "until a transaction is recorded") and only the secrets are
+// looked for - in the whole file, transaction store included.  No facts are
+// compared with the model here: these cases are decided by the oracle only
+// (byte scan + decrypt-and-classify of every sealed blob).
 
 import (
 	"encoding/hex"
@@ -57,8 +63,9 @@ func (c04Chain) FilterBlocks(*chain.FilterBlocksRequest) (*chain.FilterBlocksRes
 func (c04Chain) BlockStamp() (*waddrmgr.BlockStamp, error) {
 	return &waddrmgr.BlockStamp{Hash: *c04Params.GenesisHash, Timestamp: c04Params.GenesisBlock.Header.Timestamp}, nil
 }
-func (c04Chain) SendRawTransaction(*wire.MsgTx, bool) (*chainhash.Hash, error) {
-	return nil, errors.New("not connected")
+func (c04Chain) SendRawTransaction(tx *wire.MsgTx, _ bool) (*chainhash.Hash, error) {
+	h := tx.TxHash()
+	return &h, nil
 }
 func (c04Chain) Rescan(*chainhash.Hash, []btcutil.Address, map[wire.OutPoint]btcutil.Address) error {
 	return nil
@@ -117,6 +124,10 @@ func (x *wrun) snap(obs *c04OpObs) {
 		}
 	}
 	obs.NRows, obs.Needles, obs.Image, obs.Canary, obs.Residue = o.NRows, o.Needles, o.Image, o.Canary, o.Residue
+	obs.Scanned, obs.WO, obs.Locked = true, o.WO, o.Locked
+	obs.Opened += o.Opened
+	obs.NChanged += o.NChanged
+	obs.Extra = dedupFacts(append(obs.Extra, o.Extra...))
 	x.classify(&o, x.txRecorded)
 	if !o.Canary {
 		x.tag("canary_missed")
@@ -317,6 +328,9 @@ func (x *wrun) wexec(op c04Op) error {
 			if op.Private {
 				oldp = x.privPass
 			}
+			if !op.PassOK {
+				oldp = []byte("wrong-" + string(oldp))
+			}
 			x.passGen++
 			newp = []byte(fmt.Sprintf("wallet-pass%d-%s", x.passGen, hex.EncodeToString(x.seed[:5])))
 			x.addPass(newp)
@@ -363,6 +377,58 @@ func (x *wrun) wexec(op c04Op) error {
 		}
 		x.locked(func() { x.converted = true; x.unlocked = false })
 		return nil
+	case "receive":
+		// a transaction paying one of the wallet's addresses arrives through
+		// the notification handler (unmined, or mined in block 1)
+		var target *addrRec
+		n := 0
+		for _, a := range x.addrs {
+			if a.id.Kind == "ch" && a.scope == s {
+				if n == int(op.N) || target == nil {
+					target = a
+				}
+				n++
+			}
+		}
+		if target == nil {
+			return errors.New("no address to pay to")
+		}
+		pk, err := txscript.PayToAddrScript(target.addr)
+		if err != nil {
+			return err
+		}
+		tx := wire.NewMsgTx(2)
+		tx.AddTxIn(wire.NewTxIn(&wire.OutPoint{Hash: chainhash.Hash{9, byte(op.ID)}, Index: uint32(op.ID)}, nil, nil))
+		tx.AddTxOut(wire.NewTxOut(int64(op.Len)*100000+50000, pk))
+		rec, err := wtxmgr.NewTxRecordFromMsgTx(tx, time.Unix(1600000200+int64(op.ID), 0))
+		if err != nil {
+			return err
+		}
+		x.locked(func() { x.txRecorded = true; x.txScript = pk })
+		return x.w.VerifAddRelevantTx(rec, nil)
+	case "send":
+		// SendOutputs: coin selection, change address, signing with the
+		// wallet's private keys, recording, publishing
+		dest, err := btcutil.NewAddressWitnessPubKeyHash(btcutil.Hash160([]byte(fmt.Sprintf("c04-dest-%d", op.ID))), c04Params)
+		if err != nil {
+			return err
+		}
+		pk, err := txscript.PayToAddrScript(dest)
+		if err != nil {
+			return err
+		}
+		// the change address the send will issue is not known beforehand;
+		// its keys are registered right after (a secret written by the send
+		// itself would be an account or address key, all known already)
+		amt := int64(op.Len) * 1000
+		if amt == 0 {
+			amt = 20000
+		}
+		x.locked(func() { x.txRecorded = true })
+		_, err = x.w.SendOutputs([]*wire.TxOut{wire.NewTxOut(amt, pk)}, &s, op.Acct, 0, 2000, wallet.CoinSelectionLargest, "c04")
+		// register the keys of every address the wallet now has in this account
+		x.registerIssued(s, op.Acct)
+		return err
 	case "recordtx":
 		var target *addrRec
 		for _, a := range x.addrs {
@@ -430,6 +496,10 @@ func runWallet(in c04Input) (c04Case, error) {
 			obs.OK = err == nil
 			if err != nil {
 				obs.Err = err.Error()
+				// a failed call is looked at too (whatever it committed on
+				// the way was already scanned by the commit hook)
+				x.snap(obs)
+				x.tag("failed_call_scanned")
 			}
 			if obs.OK {
 				x.snap(obs)
@@ -491,6 +561,54 @@ func runWallet(in c04Input) (c04Case, error) {
 	return cs, nil
 }
 
+// registerIssued registers (keys, addresses) every chained address of the
+// account that the wallet has issued by itself (change addresses of sends).
+func (x *wrun) registerIssued(s waddrmgr.KeyScope, acct uint32) {
+	props, err := x.w.AccountProperties(s, acct)
+	if err != nil {
+		return
+	}
+	x.locked(func() {
+		ar, ok := x.accts[acctKey(s, acct)]
+		if !ok {
+			return
+		}
+		want := [2]uint32{props.ExternalKeyCount, props.InternalKeyCount}
+		for branch := uint32(0); branch < 2; branch++ {
+			for ar.next[branch] < want[branch] {
+				idx := ar.next[branch]
+				x.accts[acctKey(s, acct)] = ar
+				bk, err := ar.xprv.DeriveNonStandard(branch) // nolint:staticcheck
+				if err != nil {
+					return
+				}
+				ck, err := bk.DeriveNonStandard(idx) // nolint:staticcheck
+				if err != nil {
+					return
+				}
+				pk, err := ck.ECPrivKey()
+				if err != nil {
+					return
+				}
+				x.addPrivKey("address_privkey", pk)
+				x.addPubKey("address_pubkey", pk.PubKey())
+				t := x.scopes[s].ExternalAddrType
+				if branch == 1 {
+					t = x.scopes[s].InternalAddrType
+				}
+				if a, err := addressFor(t, pk.PubKey(), true); err == nil {
+					x.addAddress("address", a)
+					x.remember(&addrRec{id: c04AddrID{Kind: "ch", Purpose: s.Purpose, Coin: s.Coin, Acct: acct, Internal: branch == 1, Idx: idx},
+						scope: s, addr: a, hasPriv: true,
+						path: waddrmgr.DerivationPath{InternalAccount: acct, Account: acct, Branch: branch, Index: idx}})
+				}
+				ar.next[branch]++
+			}
+		}
+		x.accts[acctKey(s, acct)] = ar
+	})
+}
+
 func c04WalletGen(r *gen.R, i int) c04Input {
 	s84, s86, s49, s44 := [2]uint32{84, 0}, [2]uint32{86, 0}, [2]uint32{49, 0}, [2]uint32{44, 0}
 	ops := []c04Op{{K: "create"}, {K: "unlock", PassOK: true}}
@@ -507,10 +625,36 @@ func c04WalletGen(r *gen.R, i int) c04Input {
 	if r.Chance(1, 2) {
 		ops = append(ops, c04Op{K: "chpass", Private: false, PassOK: true})
 	}
+	// failed calls: wrong passphrases, a duplicate import, a send without funds
+	ops = append(ops, c04Op{K: "chpass", Private: true, PassOK: false}, c04Op{K: "imppriv", Scope: s84, ID: 1, Comp: true})
 	if r.Chance(1, 2) {
-		ops = append(ops, c04Op{K: "lock"}, c04Op{K: "derive", Scope: s84, Acct: 0, N: 1}, c04Op{K: "unlock", PassOK: true})
+		ops = append(ops, c04Op{K: "lock"}, c04Op{K: "derive", Scope: s84, Acct: 0, N: 1}, c04Op{K: "unlock", PassOK: false},
+			c04Op{K: "unlock", PassOK: true})
 	}
-	ops = append(ops, c04Op{K: "convert", Scope: s84, Accounts: uint32(r.Range(0, 3))}, c04Op{K: "reopen"},
-		c04Op{K: "derive", Scope: s84, Acct: 0, N: 1}, c04Op{K: "recordtx"})
+	if i%3 != 2 {
+		// a wallet with a transaction history: receives in several scopes,
+		// sends (signing with derived keys), a send that fails
+		ops = append(ops, c04Op{K: "send", Scope: s84, Acct: 0, ID: 1, Len: 30}) // no funds yet: fails
+		scopes := [][2]uint32{s84, s86, s49, s44}
+		for k := 0; k < r.Range(2, 4); k++ {
+			ops = append(ops, c04Op{K: "receive", Scope: scopes[r.Intn(4)], ID: 10 + k, N: uint32(r.Intn(2)), Len: r.Range(1, 9)})
+		}
+		ops = append(ops, c04Op{K: "receive", Scope: s84, ID: 20, Len: r.Range(2, 9)})
+		for k := 0; k < r.Range(1, 3); k++ {
+			ops = append(ops, c04Op{K: "send", Scope: s84, Acct: 0, ID: 30 + k, Len: r.Range(10, 60)})
+		}
+		ops = append(ops, c04Op{K: "send", Scope: s84, Acct: 0, ID: 40, Len: 90000000}) // more than the wallet has: fails
+		if r.Chance(1, 2) {
+			ops = append(ops, c04Op{K: "lock"}, c04Op{K: "send", Scope: s84, Acct: 0, ID: 41, Len: 11}, c04Op{K: "unlock", PassOK: true})
+		}
+		if r.Chance(1, 2) {
+			ops = append(ops, c04Op{K: "reopen"}, c04Op{K: "unlock", PassOK: true}, c04Op{K: "derive", Scope: s84, Acct: 0, N: 1})
+		}
+	}
+	if i%4 != 3 {
+		ops = append(ops, c04Op{K: "convert", Scope: s84, Accounts: uint32(r.Range(0, 3))}, c04Op{K: "reopen"},
+			c04Op{K: "derive", Scope: s84, Acct: 0, N: 1})
+	}
+	ops = append(ops, c04Op{K: "recordtx"})
 	return c04Input{Mode: "wallet", Seed: hex.EncodeToString(r.Bytes(32)), Ops: ops}
 }
